@@ -368,6 +368,9 @@ func fullReference(b benchmarks.Benchmark) string {
 }
 
 func makeBench(name string, d *driver.Driver, a arch.Type, p params) benchmarks.Benchmark {
+	if name == "twins" {
+		return makeTwins(d, a, p)
+	}
 	m, ok := registry[name]
 	if !ok {
 		panic("unknown bench " + name)
